@@ -76,6 +76,17 @@ const TEXTS: [&str; 12] = [
     "PROGRAM Ops\nVAR a,b:BOOL; n:INT; p:REF_TO INT; END_VAR\na:=a AND b OR NOT a XOR b;\nn:=-n+(-1)*n MOD 2;\na:=n<=1 AND n>=0 OR n<>2;\np:=REF(n);p^:=3;\nn:=16#FF+2#1010+INT#5;\nEND_PROGRAM\n",
 ];
 
+/// Inputs reported (by reading the formatter) to lose or change tokens under the DEFAULT configuration; each is formatted
+/// once per run as a full document and compared like every other text. One label per input, so that a finding names it.
+const REPORTED: [(&str, &str); 6] = [
+    ("string-with-colon-on-initialiser-continuation-line", "PROGRAM P\nVAR\nnames : ARRAY[0..1] OF STRING := [\n'a:b',\n'cc:dd'];\nEND_VAR\nEND_PROGRAM\n"),
+    ("int-dot-int", "PROGRAM P\ny := 1 . 5;\nEND_PROGRAM\n"),
+    ("pragma-over-two-lines", "PROGRAM P\n{attribute 'a'\n 'b'}\nx := 1;\nEND_PROGRAM\n"),
+    ("no-break-space-line-and-comment-tail", "PROGRAM P\n\u{a0}\nx := 1; // c\u{a0}\nEND_PROGRAM\n"),
+    ("lf-inside-comment-of-crlf-text", "PROGRAM P\r\n(* a\n b *)\r\nEND_PROGRAM\r\n"),
+    ("time-of-day-on-initialiser-continuation-line", "PROGRAM P\nVAR\nlongername : ARRAY[0..1] OF TOD := [\nTOD#12:30:00,\nTOD#01:02:03];\nt : INT;\nEND_VAR\nEND_PROGRAM\n"),
+];
+
 fn configs(rng: &mut Rng) -> J {
     let mut f = serde_json::Map::new();
     if rng.bool() {
@@ -353,6 +364,27 @@ pub fn run(sh: &mut Shard) {
         }
         sh.end();
         return;
+    }
+    if sh.args.shard == 0 {
+        l.notify("workspace/didChangeConfiguration", json!({"settings": {"stLsp": {"format": {}}}}));
+        for (label, text) in REPORTED {
+            let class = format!("reported-{label}");
+            let case = json!({"class": class, "config": {"stLsp": {"format": {}}}, "text": text, "rng": "0"});
+            if !sh.begin(&class, &case) {
+                continue;
+            }
+            n += 1;
+            match format_full(&mut l, &format!("file:///c15/rep{n}.st"), text, &json!({"tabSize": 4, "insertSpaces": true})) {
+                Ok((out, _)) => {
+                    sh.count("reported_inputs_formatted", 1);
+                    if let Err((sig, d)) = same_program(text, &out) {
+                        sh.violation(format!("full|{sig}|{class}"), d.chars().take(600).collect::<String>(), case.clone());
+                    }
+                }
+                Err(e) => sh.inconclusive(e),
+            }
+            sh.end();
+        }
     }
     let rng = Rng::new(sh.args.shard_seed());
     let corpus: Vec<(String, String)> = crate::engines::c12::corpus_files().into_iter().filter(|(_, t)| t.len() < 6000).collect();
